@@ -151,8 +151,8 @@ def check(case):
             raise Skip()
         n, nsub, visits, tree = r
         size = refexec.unrolled_size(tree)
-        if size > 3000:
-            raise Skip()
+        if size * 2**n > 3000 * 32:
+            raise Skip()  # bounded by case size (emulator cost ~ gates x 2^n), never by a clock
         budget = 2000 * (size + 50) + 10**6
         res, text = run_emulator(prog, env, natives, budget)
         ctx = f"--- gate-set seed {gate_seed}, overrides {env}\n--- program:\n{text}"
